@@ -115,8 +115,8 @@ func cmdCheck(args []string) int {
 		if len(incl) == 0 {
 			return true
 		}
-		if strings.Contains(n, "/cover.") {
-			return true
+		if strings.Contains(n, "/cover.") || strings.Contains(n, "/attach.") {
+			return true // reachability covers and detached anchors concern every property the function is listed under
 		}
 		for _, r := range incl {
 			if r.MatchString(n) {
